@@ -95,6 +95,7 @@ PROFILE = {
     'target_only': ['True', 'True', 'False'],
     'subsampling': [1, 1, 2],
     'poison': 0.0,
+    'more_runs': 0.12,
 }
 
 
@@ -154,7 +155,7 @@ def compare_family(fam, values):
     ref_i = next((i for i, v in enumerate(values) if v is not None), None)
     if ref_i is None:
         return None
-    ref = values[ref_i].get('ranks')
+    ref = allranks(values[ref_i])
     ref_out = outcome(values[ref_i])
     for j, v in enumerate(values):
         if v is None:
@@ -162,8 +163,8 @@ def compare_family(fam, values):
         if outcome(v) != ref_out:
             mi, mj = fam['members'][ref_i], fam['members'][j]
             return ('outcome-differs', {'member_a': member_summary(mi), 'member_b': member_summary(mj), 'outcome_a': ref_out, 'outcome_b': outcome(v)}, (ref_i, j))
-        if v.get('ranks') != ref:
-            a, b = ref or [], v.get('ranks') or []
+        if allranks(v) != ref:
+            a, b = ref or [], allranks(v) or []
             diff = sorted(set(map(tuple, a)) ^ set(map(tuple, b)))[:4]
             mi, mj = fam['members'][ref_i], fam['members'][j]
             return ('ranks-differ', {'member_a': member_summary(mi), 'member_b': member_summary(mj), 'rows_a': len(a), 'rows_b': len(b), 'difference': diff}, (ref_i, j))
@@ -174,6 +175,16 @@ def compare_family(fam, values):
             which = [f for f in set(a.get('files', {})) | set(b.get('files', {})) if a.get('files', {}).get(f) != b.get('files', {}).get(f)]
             return ('repeat-differs', {'member': member_summary(fam['members'][r]), 'digest_a': a.get('digest'), 'digest_b': b.get('digest'), 'files_differing': which}, (r, len(values) - 1))
     return None
+
+
+def allranks(v):
+    """Rows written by every task the simulated process ran (a long-lived interpreter may run several), flattened."""
+    if v.get('ranks_all') is None:
+        return v.get('ranks')
+    out = []
+    for i, rk in enumerate(v['ranks_all']):
+        out += [[f'task{i + 1}'] + list(r) for r in (rk or [])] if rk is not None else [[f'task{i + 1}', None]]
+    return out
 
 
 def outcome(v):
@@ -219,7 +230,7 @@ def shrink_pair(pool, a, b, cls, wall=45.0):
         if va is None or vb is None:
             return False
         if cls == 'ranks-differ':
-            return va.get('ranks') != vb.get('ranks') and va.get('status') == vb.get('status') == 'completed'
+            return allranks(va) != allranks(vb) and va.get('status') == vb.get('status') == 'completed'
         if cls == 'outcome-differs':
             return outcome(va) != outcome(vb)
         return va.get('digest') != vb.get('digest') or va.get('files') != vb.get('files')
@@ -437,7 +448,7 @@ def replay(args):
     ok = False
     if vals is not None:
         if obj['class'] == 'ranks-differ':
-            ok = vals[0].get('ranks') != vals[1].get('ranks')
+            ok = allranks(vals[0]) != allranks(vals[1])
         elif obj['class'] == 'outcome-differs':
             ok = outcome(vals[0]) != outcome(vals[1])
         else:
